@@ -325,7 +325,8 @@ fn gen_tcase(u: &mut Choices) -> TCase {
     let mut extra = vec![];
     if dir_layout && u.chance(2, 3) {
         // the primary file is x.guard: names that sort before and after it, some in a sub-directory
-        let names = ["alpha", "zeta", "sub/beta", "sub/yotta", "aaa/first"];
+        // ("xy", "x2": the primary file's stem is a prefix of theirs)
+        let names = ["alpha", "zeta", "sub/beta", "sub/yotta", "aaa/first", "xy", "x2"];
         let n = u.range(1, 3);
         let start = u.below(names.len());
         for i in 0..n {
